@@ -96,7 +96,7 @@ func runProtocol(rc *core.RunCtx) {
 	for op := 0; op < nops; op++ {
 		live := w.live()
 		at := live[g.IntN(len(live))]
-		switch g.Pick(6, 2, 2, 1, 2) {
+		switch g.Pick(6, 2, 2, 1, 2, 2) {
 		case 0: // at hears the announcement of another node and handshakes it
 			o := live[g.IntN(len(live))]
 			if o == at {
@@ -153,11 +153,43 @@ func runProtocol(rc *core.RunCtx) {
 			}
 			rc.Scen("op%d: %s gets the handshake of %s (%s) and then the report that %s is unreachable", op, at.id, fake.ID, fake.Host, fake.Host)
 			simrt.Fault("handshake-then-unreachable")
-			at.c.Engine().SendWithSender(actor.NewPID(at.addr, "provider/"+at.id), &hcluster.Handshake{Member: fake}, sinks[at.id])
+			if g.Bool(0.4) {
+				// a handshake that carries no sender: the peer is added, the answer has nowhere to go
+				rc.Scen("op%d: (handshake sent without a sender)", op)
+				at.c.Engine().Send(actor.NewPID(at.addr, "provider/"+at.id), &hcluster.Handshake{Member: fake})
+			} else {
+				at.c.Engine().SendWithSender(actor.NewPID(at.addr, "provider/"+at.id), &hcluster.Handshake{Member: fake}, sinks[at.id])
+			}
 			at.c.Engine().BroadcastEvent(actor.RemoteUnreachableEvent{ListenAddr: fake.Host})
 			settle(time.Second)
 			// joined, then left: both reached the provider in that order
 			check("handshake-then-unreachable")
+		case 5: // a peer is lost at one address and comes back under the same id from another one
+			fid := fmt.Sprintf("R%d", op)
+			h1, h2 := fmt.Sprintf("10.88.1.%d:4000", op+1), fmt.Sprintf("10.88.2.%d:4000", op+1)
+			if sinks[at.id] == nil {
+				sinks[at.id] = at.c.Engine().SpawnFunc(func(*actor.Context) {}, "sink")
+			}
+			prov := actor.NewPID(at.addr, "provider/"+at.id)
+			short := 200 * time.Millisecond // well inside the pinger's period and the dial back-off
+			rc.Scen("op%d: at %s, %s joins from %s, %s is reported unreachable, %s joins again from %s, a late report for %s arrives, finally %s is reported unreachable", op, at.id, fid, h1, h1, fid, h2, h1, h2)
+			simrt.Fault("rejoin-from-new-address")
+			at.c.Engine().SendWithSender(prov, &hcluster.Handshake{Member: &hcluster.Member{ID: fid, Host: h1, Kinds: []string{"ka"}}}, sinks[at.id])
+			at.c.Engine().BroadcastEvent(actor.RemoteUnreachableEvent{ListenAddr: h1})
+			settle(short)
+			check("rejoin/left-old-address")
+			at.c.Engine().SendWithSender(prov, &hcluster.Handshake{Member: &hcluster.Member{ID: fid, Host: h2, Kinds: []string{"ka"}}}, sinks[at.id])
+			settle(short)
+			model[at.id][fid] = true
+			check("rejoin/joined-from-new-address")
+			at.c.Engine().BroadcastEvent(actor.RemoteUnreachableEvent{ListenAddr: h1})
+			settle(short)
+			// the old address belongs to nobody now: the member stays
+			check("rejoin/late-report-for-old-address")
+			at.c.Engine().BroadcastEvent(actor.RemoteUnreachableEvent{ListenAddr: h2})
+			settle(short)
+			model[at.id][fid] = false
+			check("rejoin/left-new-address")
 		}
 	}
 	rc.Nontrivial = true
